@@ -346,3 +346,35 @@ fn c07_balance_sapling_1x1_memo() {
         }
     }
 }
+
+//@ {"p":"C07","tier":"quick","clause":"the same formula with NO bound on sizes and counts: for every usize size and count the result is the exact 128-bit value when that is <= MAX_MONEY and Err(Balance(Overflow)) otherwise - never a panic, never a wrapped (too small) fee","bounds":"2 transparent inputs and 2 outputs, all four sizes and all four counts any usize","covers":3,"t":1800}
+#[kani::proof]
+#[kani::unwind(4)]
+fn c07_fee_formula_full_range() {
+    let (a, b, c, d): (usize, usize, usize, usize) = (kani::any(), kani::any(), kani::any(), kani::any());
+    let (si, so, oa, ia): (usize, usize, usize, usize) = (kani::any(), kani::any(), kani::any(), kani::any());
+    let r = Zip317FeeRule::standard().fee_required(
+        &MAIN_NETWORK,
+        BlockHeight::from_u32(kani::any()),
+        [InputSize::Known(a), InputSize::Known(b)],
+        [c, d],
+        si,
+        so,
+        oa,
+        ia,
+    );
+    let want = zip317_reference(a as u128 + b as u128, c as u128 + d as u128, si as u128, so as u128, oa as u128, ia as u128);
+    match r {
+        Ok(fee) => {
+            assert!(fee.into_u64() as u128 == want);
+            kani::cover!(fee.into_u64() == 10_000);
+        }
+        Err(e) => {
+            assert!(want > MAX_MONEY as u128);
+            assert!(matches!(e, FeeError::Balance(_)));
+            kani::cover!(si == usize::MAX && oa == 1);
+            kani::cover!(a == usize::MAX && b == usize::MAX);
+            core::mem::forget(e);
+        }
+    }
+}
